@@ -41,6 +41,17 @@ def is_strlike(t):
     return isinstance(t, (TStr, TBytes))
 
 
+def _none_test(t):
+    """(`x`, True) for `x is not None`, (`x`, False) for `x is None`, else None."""
+    if (isinstance(t, ast.Compare) and len(t.ops) == 1 and isinstance(t.left, ast.Name)
+            and isinstance(t.comparators[0], ast.Constant) and t.comparators[0].value is None):
+        if isinstance(t.ops[0], ast.IsNot):
+            return t.left.id, True
+        if isinstance(t.ops[0], ast.Is):
+            return t.left.id, False
+    return None
+
+
 class ExprMixin:
     # ------------------------------------------------------------------
     # monadic helpers
@@ -360,6 +371,8 @@ class ExprMixin:
         if n in st.store:
             return [(st, st.store[n])]
         v = self.lookup_global(n, st)
+        if v is None and n == "__name__":
+            v = mk_const(st.frame.module.dotted)  # the module's dotted name
         if v is None:
             raise EngineError(f"unbound name {n}")
         return [(st, v)]
@@ -611,6 +624,13 @@ class ExprMixin:
                     s.guards.pop()
                     if len(rb) == 1 and not isinstance(rb[0][1], Raised):
                         a, b = ra[0][1], rb[0][1]
+                        # `x if x is not None else d` / `d if x is None else x`: on its branch x is not None - its value
+                        nm = _none_test(e.test)
+                        if nm is not None:
+                            if nm[1] and isinstance(e.body, ast.Name) and e.body.id == nm[0] and isinstance(a.t, TOpt):
+                                a = sym.opt_val(a)
+                            if not nm[1] and isinstance(e.orelse, ast.Name) and e.orelse.id == nm[0] and isinstance(b.t, TOpt):
+                                b = sym.opt_val(b)
                         m = self.merge_ite(c, a, b)
                         if m is not None:
                             out.append((s, m))
@@ -716,6 +736,10 @@ class ExprMixin:
 
     def contains(self, container: SV, x: SV, st):
         container = self.unbox(container, st)
+        if isinstance(container.t, TOpt):
+            if not st.spec:  # `x in None` is a TypeError; in a specification the clause itself guards the case
+                self.partial(st, z3.Not(sym.opt_is_none(container)), "TypeError", ast.Constant(value=None))
+            container = sym.opt_val(container)
         t = container.t
         if isinstance(t, TRef):
             # x in obj: the class's assumed (pure) __contains__
